@@ -370,7 +370,7 @@ def _json(ctx: Ctx, j: Judge, b: go.Built, obj: Any, cv: bool) -> None:
         _json_walk(ctx, j, b, text, cv)
 
 
-_JSON_EDGES = (None, True, -1, 1 << 64, 1.5, "", "zz", "00", [], {}, [None], {"hex": 1})
+_JSON_EDGES = (None, True, -1, 1 << 64, 1.5, "", "zz", "00", [], {}, [None], {"hex": 1}, "0001-01-01T00:00:00+14:00", "9999-12-31T23:59:59-14:00", "2009-01-03T18:15:05", "1e400", "\ud800")
 
 
 def _json_walk(ctx: Ctx, j: Judge, b: go.Built, text: str, cv: bool) -> None:
